@@ -5,6 +5,7 @@ open RV.C19
 #print axioms history_refines_partial
 #print axioms history_refines_witness
 #print axioms ctor_refines
+#print axioms extend_self_refines
 #print axioms coll_frame
 #print axioms reads_total_on_broken
 #print axioms cyclic_reads_raise
